@@ -13,7 +13,7 @@ def run(ctx):
         ctx.check_model(pc.SPEC, 'MCPool.tla', 'MC_q_c08.cfg', WHAT, label='2 workers, 2 ring tasks, shrinking resize', workers=12,
                         required=('RbPushRing', 'TpRzDrainRing', 'TpDecWorkRz', 'GateQuiet', 'TpWkFlushFinal'), timeout=3000, heap='16g')
     exe = pc.build(ctx, 2)
-    progs = ['main:new2,idle,rbulk1.2,quiet,pfq3,placed4,quiet,del', 'main:new2,idle,rbulk1.2,sync,quiet,del;p2:up,resize1', 'main:new2,fq1,bulk2.2,quiet,sched4,quiet,del',
+    progs = ['main:new2,idle,rbulk1.2,quiet,pfq3,placed4,quiet,del', 'main:new2,rbulk1.2,resize1,quiet,rbulk3.1,resize2,quiet,del', 'main:new2,fq1,bulk2.2,quiet,sched4,quiet,del',
              'main:new3,rbulk1.3,quiet,resize1,fq4,quiet,resize2,rbulk5.2,quiet,del',
              'main:new2,up,rbulk1.2,sync,quiet,del;p2:up,resize2,resize0,resize2',
              'main:new2,up,resize1,resize2,resize1,sync,quiet,del;p2:up,fq1,fq2,sched3,fq4']
